@@ -37,6 +37,9 @@ type c04Case struct {
 	// Out: legacy only, optional: the RDG_OUT_DATA connection comes from this address while the RDG_IN_DATA
 	// connection, which carries the token, comes from Use.
 	Out *c04Side `json:"legacy_out_side,omitempty"`
+	// ExtraReq: legacy only: between tunnel authorization and the channel request another request with the same
+	// connection identifier arrives from the presenting address (a retried RDG_IN_DATA / RDG_OUT_DATA). It must change nothing.
+	ExtraReq string `json:"extra_request_same_id,omitempty"`
 }
 
 // refAddr is the reference client-address function of the statement.
@@ -133,6 +136,9 @@ func genC04(t *rapid.T) c04Case {
 			c.Out = &c04Side{IP: c.Use.IP, XFF: genChain(t, rapid.SampledFrom(append(c04Far, c04IPs...)).Draw(t, "outFirst"))}
 		}
 	}
+	if c.Kind == "legacy" && c.Out == nil && rapid.IntRange(0, 2).Draw(t, "extraReq") == 0 {
+		c.ExtraReq = rapid.SampledFrom([]string{"RDG_IN_DATA", "RDG_OUT_DATA", "GET"}).Draw(t, "extraMethod")
+	}
 	return c
 }
 
@@ -221,6 +227,25 @@ func checkC04(c c04Case, cookie string, gwAddr string, extraHdr [][2]string) *Vi
 			return viol("c04/open", "legacy transport did not open: %v", err)
 		}
 		r = sess.RunOn(l, units)
+	} else if c.Kind == "legacy" && c.ExtraReq != "" {
+		id := sess.NewConnID()
+		l, err := gwc.DialLegacy(tgt, id)
+		if err != nil {
+			w.observe(snap, 0)
+			return viol("c04/open", "legacy transport did not open: %v", err)
+		}
+		for _, u := range units[:3] {
+			l.Send(u)
+		}
+		waitFor(func() bool { return countPackets(l) >= 3 })
+		// the extra request, from the presenting address, with the same identifier
+		req := fmt.Sprintf("%s %s HTTP/1.1\r\nHost: x\r\nRdg-Connection-Id: %s\r\nConnection: close\r\n", c.ExtraReq, gwc.GatewayPath, id)
+		for _, h := range tgt.Headers {
+			req += h[0] + ": " + h[1] + "\r\n"
+		}
+		gwc.RawHTTP(tgt, []byte(req+"Content-Length: 0\r\n\r\n"), 300*time.Millisecond)
+		r = sess.RunOn(l, units[3:])
+		// responses of the first three steps were collected on the same connection
 	} else {
 		r = sess.Run(c.Kind, tgt, units)
 	}
@@ -288,6 +313,9 @@ func classifyC04(c c04Case) (bool, []string) {
 	cl := []string{"rel=" + c.Rel, "kind=" + c.Kind, fmt.Sprintf("verify=%v", c.Verify)}
 	if c.Out != nil {
 		cl = append(cl, "legacy-split-addresses")
+	}
+	if c.ExtraReq != "" {
+		cl = append(cl, "extra-request-same-id")
 	}
 	ia, ua := refAddr(c.Issue), refAddr(c.Use)
 	if ia == ua {
